@@ -223,7 +223,9 @@ pub fn check_short_read(file: &[u8], init: Option<&[u8]>, max: usize, vary: u64,
 }
 
 pub fn check_short_mux(case: &MuxCase, max: usize, vary: u64, intr: u64) -> Check {
-    let (r0, base) = mux::run_mux_vec(case);
+    // the reference run: the same history into a plain in-memory sink at position 0
+    let plain = MuxCase { sink: 0, ..case.clone() };
+    let (r0, base) = mux::run_mux_vec(&plain);
     if r0.panicked || !r0.all_ok {
         return Ok(());
     }
@@ -289,7 +291,7 @@ fn histories(ctx: &Ctx) -> Vec<MuxCase> {
     let strat = mux::mux_history(3, maxops, 0.0);
     let mut v: Vec<MuxCase> = (0..n).map(|_| crate::gen::draw(&strat, &mut runner)).collect();
     // long histories (hundreds of samples): behaviour that only starts after many calls
-    let tr = |kind: mux::MKind, ts: u32| mux::MTrack { kind, timescale: ts, language: "und".into(), preset: false };
+    let tr = |kind: mux::MKind, ts: u32| mux::MTrack { kind, timescale: ts, language: "und".into(), preset: false, ttype: 0 };
     let aac = mux::MKind::Aac { profile: 2, freq_index: 3, chan: 2, bitrate: 128_000 };
     let avc = mux::MKind::Avc { width: 320, height: 240, sps: vec![0x67, 0x42, 0xc0, 0x1e, 0xd9], pps: vec![0x68, 0xce] };
     v.push(MuxCase { major: *b"isom", minor: 0, compat: vec![*b"isom"], timescale: 1000, tracks: vec![tr(aac.clone(), 48_000)], ops: (0..300u32).map(|i| mux::MOp { track: 1, size: 5 + i % 3, dur: 1024, cts: 0, sync: true }).collect(), sink: 0 });
